@@ -26,6 +26,9 @@ def run(ctx):
         dscommon.run_family(ctx, "C02Close", fmt="netcdf", always_nontrivial=True)
         # values by coordinates also under -T: the windows follow each file's own (unsorted) grid, the results go to the right coordinates
         dscommon.run_family(ctx, "C15T", fmt="netcdf", limit=60, always_nontrivial=True)
+        # other fields (quantile columns) by their own coordinates: the second input stores more levels than the first
+        dscommon.run_family(ctx, "C01Extra", fmt="text", variant=shuffled, always_nontrivial=True)
+        dscommon.run_family(ctx, "C01Extra", fmt="text", fresh=False, always_nontrivial=True)
     else:
         dscommon.run_family(ctx, "C02Order", fmt="text", variant=shuffled, always_nontrivial=True)
         dscommon.run_family(ctx, "C02Order", fmt="netcdf", always_nontrivial=True)
@@ -39,5 +42,7 @@ def run(ctx):
         dscommon.run_family(ctx, "C02Close", fmt="text", variant=shuffled, always_nontrivial=True)
         dscommon.run_family(ctx, "C02Close", fmt="netcdf", always_nontrivial=True)
         dscommon.run_family(ctx, "C15T", fmt="netcdf", always_nontrivial=True)
+        dscommon.run_family(ctx, "C01Extra", fmt="text", variant=shuffled, always_nontrivial=True)
+        dscommon.run_family(ctx, "C01Extra", fmt="text", fresh=False, always_nontrivial=True)
         ctx.exhaustive = True
     par.clean_workdirs()
